@@ -597,17 +597,26 @@ def fsRefines (content : Bytes → Bytes) : CRefines content filesStore fsAnom w
 
 theorem chk_ok_mono (anom : Op → Out → Bool) (k : Chk) (e : Ev) (h : (chk anom k e).ok = true) : k.ok = true := by
   cases e with
-  | inv c op => unfold chk at h; split at h <;> simp_all
+  | inv c op => cases hcl : k.cl c <;> simp [chk, hcl] at h <;> exact h
   | lin c op =>
-    unfold chk at h
-    split at h
-    · split at h <;> simp_all
-    · simp at h
+    cases hcl : k.cl c with
+    | running op' =>
+      by_cases e : op = op'
+      · simpa [chk, hcl, e] using h
+      · simp [chk, hcl, e] at h
+    | idle => simp [chk, hcl] at h
+    | done _ _ => simp [chk, hcl] at h
   | ret c op o =>
-    unfold chk at h
-    split at h
-    · split at h <;> simp_all
-    · simp at h
+    cases hcl : k.cl c with
+    | done op' o' =>
+      by_cases e : op = op' ∧ (o = o' ∨ anom op o = true)
+      · obtain ⟨e1, e2⟩ := e
+        subst e1
+        rw [chk_ret_done anom k c op o o' hcl e2] at h
+        exact h
+      · simp [chk, hcl, e] at h
+    | idle => simp [chk, hcl] at h
+    | running _ => simp [chk, hcl] at h
 
 theorem foldl_ok_mono (anom : Op → Out → Bool) (tr : List Ev) (k : Chk)
     (h : (tr.foldl (chk anom) k).ok = true) : k.ok = true := by
@@ -635,6 +644,14 @@ and every client marked as linearised owes that to a linearisation event -/
 def ChkInv (k : Chk) (ops : List Op) : Prop :=
   k.m = runState [] ops ∧ ∀ c op o, k.cl c = .done op o → op ∈ ops
 
+theorem done_upd {cl : Nat → CSt} {ops : List Op} (h2 : ∀ c op o, cl c = .done op o → op ∈ ops) (c : Nat) (st : CSt)
+    (hst : ∀ op o, st = .done op o → op ∈ ops) :
+    ∀ c' op o, upd cl c st c' = .done op o → op ∈ ops := by
+  intro c' op o h
+  by_cases e : c' = c
+  · subst e; rw [upd_same] at h; exact hst _ _ h
+  · rw [upd_other _ _ e] at h; exact h2 _ _ _ h
+
 theorem chkInv_foldl (anom : Op → Out → Bool) (tr : List Ev) (k : Chk) (ops : List Op)
     (hk : ChkInv k ops) (hok : (tr.foldl (chk anom) k).ok = true) :
     ChkInv (tr.foldl (chk anom) k) (ops ++ linOps tr) ∧
@@ -647,14 +664,12 @@ theorem chkInv_foldl (anom : Op → Out → Bool) (tr : List Ev) (k : Chk) (ops 
     cases e with
     | inv c op =>
       have hk' : ChkInv (chk anom k (.inv c op)) ops := by
-        unfold chk
-        split
-        · refine ⟨hk.1, ?_⟩
-          intro c' op' o' h
-          by_cases e : c' = c
-          · subst e; simp [upd_same] at h
-          · simp only [upd_other _ _ e] at h; exact hk.2 _ _ _ h
-        · exact hk
+        cases hcl : k.cl c with
+        | idle =>
+          rw [chk_inv_idle anom k c op hcl]
+          exact ⟨hk.1, done_upd hk.2 c _ (by intro _ _ h; cases h)⟩
+        | running _ => simp [chk, hcl] at hok1
+        | done _ _ => simp [chk, hcl] at hok1
       obtain ⟨h1, h2⟩ := ih _ ops hk' hok
       rw [linOps_cons_inv]
       refine ⟨h1, ?_⟩
@@ -665,25 +680,17 @@ theorem chkInv_foldl (anom : Op → Out → Bool) (tr : List Ev) (k : Chk) (ops 
       · exact h2 _ _ _ hm
     | lin c op =>
       have hk' : ChkInv (chk anom k (.lin c op)) (ops ++ [op]) := by
-        unfold chk at hok1 ⊢
-        split at hok1
-        · rename_i op' hcl
-          split at hok1
-          · rename_i e
-            subst e
-            simp only [hcl, if_true]
+        cases hcl : k.cl c with
+        | running op' =>
+          by_cases e : op = op'
+          · subst e
+            rw [chk_lin_running anom k c op hcl]
             refine ⟨by simp [runState_append, runState, hk.1], ?_⟩
-            intro c' op' o' h
-            by_cases e : c' = c
-            · subst e
-              simp only [upd_same, CSt.done.injEq] at h
-              simp [h.1]
-            · simp only [upd_other _ _ e] at h
-              exact List.mem_append_left _ (hk.2 _ _ _ h)
-          · simp at hok1
-            have := chk_ok_mono anom k (.lin c op)
-            simp_all
-        · simp at hok1
+            exact done_upd (fun c op o h => List.mem_append_left _ (hk.2 c op o h)) c _
+              (by intro op' o' h; cases h; simp)
+          · simp [chk, hcl, e] at hok1
+        | idle => simp [chk, hcl] at hok1
+        | done _ _ => simp [chk, hcl] at hok1
       obtain ⟨h1, h2⟩ := ih _ _ hk' hok
       rw [linOps_cons_lin]
       simp only [List.append_assoc, List.singleton_append] at h1 h2
@@ -694,37 +701,26 @@ theorem chkInv_foldl (anom : Op → Out → Bool) (tr : List Ev) (k : Chk) (ops 
       · cases hm
       · exact h2 _ _ _ hm
     | ret c op o =>
-      have hdone : ∃ o', k.cl c = .done op o' := by
-        unfold chk at hok1
-        split at hok1
-        · rename_i op' o' hcl
-          split at hok1
-          · rename_i e; exact ⟨o', by rw [hcl, e.1]⟩
-          · simp at hok1
-            have := hk
-            simp_all
-        · simp at hok1
-      obtain ⟨o', hcl⟩ := hdone
-      have hmem : op ∈ ops := hk.2 _ _ _ hcl
-      have hk' : ChkInv (chk anom k (.ret c op o)) ops := by
-        unfold chk
-        split
-        · split
-          · refine ⟨hk.1, ?_⟩
-            intro c' op' o'' h
-            by_cases e : c' = c
-            · subst e; simp [upd_same] at h
-            · simp only [upd_other _ _ e] at h; exact hk.2 _ _ _ h
-          · exact hk
-        · exact hk
-      obtain ⟨h1, h2⟩ := ih _ ops hk' hok
-      rw [linOps_cons_ret]
-      refine ⟨h1, ?_⟩
-      intro c' op' o'' hm
-      simp only [List.mem_cons] at hm
-      rcases hm with hm | hm
-      · cases hm; exact List.mem_append_left _ hmem
-      · exact h2 _ _ _ hm
+      cases hcl : k.cl c with
+      | done op' o' =>
+        by_cases e : op = op' ∧ (o = o' ∨ anom op o = true)
+        · obtain ⟨e1, e2⟩ := e
+          subst e1
+          have hmem : op ∈ ops := hk.2 c op o' hcl
+          have hk' : ChkInv (chk anom k (.ret c op o)) ops := by
+            rw [chk_ret_done anom k c op o o' hcl e2]
+            exact ⟨hk.1, done_upd hk.2 c _ (by intro _ _ h; cases h)⟩
+          obtain ⟨h1, h2⟩ := ih _ ops hk' hok
+          rw [linOps_cons_ret]
+          refine ⟨h1, ?_⟩
+          intro c' op'' o'' hm
+          simp only [List.mem_cons] at hm
+          rcases hm with hm | hm
+          · cases hm; exact List.mem_append_left _ hmem
+          · exact h2 _ _ _ hm
+        · simp [chk, hcl, e] at hok1
+      | idle => simp [chk, hcl] at hok1
+      | running _ => simp [chk, hcl] at hok1
 
 theorem replay_runState (anom : Op → Out → Bool) (tr : List Ev) (hok : (replay anom tr).ok = true) :
     (replay anom tr).m = runState [] (linOps tr) ∧ ∀ c op o, Ev.ret c op o ∈ tr → op ∈ linOps tr := by
@@ -819,8 +815,8 @@ theorem step_ops (S : CStore) (A : Op → Prop) (y : Sys S) (lbl : Lbl)
         split at hev
         · simp only [List.mem_singleton] at hev; subst hev; exact hAt
         · simp at hev
-      cases hr : (S.sec y.sh t.op t.l).2 with
-      | inl l' =>
+      split
+      · rename_i l' hr
         refine ⟨?_, ?_⟩
         · intro ev hev
           simp only [List.mem_append] at hev
@@ -833,7 +829,7 @@ theorem step_ops (S : CStore) (A : Op → Prop) (y : Sys S) (lbl : Lbl)
             simp only [upd_same, Option.some.injEq] at hc'
             subst hc'; exact hAt
           · simp only [upd_other _ _ e] at hc'; exact h.2 c' t' hc'
-      | inr o =>
+      · rename_i o hr
         refine ⟨?_, ?_⟩
         · intro ev hev
           simp only [List.mem_append, List.mem_singleton] at hev
